@@ -66,6 +66,15 @@ psutil_proc_ioprio_set(PyObject *self, PyObject *args) {
             args, _Py_PARSE_PID "ii", &pid, &ioclass, &iodata)) {
         return NULL;
     }
+    // The kernel encodes the class in the bits above IOPRIO_CLASS_SHIFT
+    // of a 16 bit value: anything which does not fit would overflow the
+    // shift below and lose the class bits. Fail like the kernel does for
+    // an invalid class (EINVAL).
+    if (ioclass < 0 || ioclass > 7 ||
+            iodata < 0 || iodata > (int)IOPRIO_PRIO_MASK) {
+        errno = EINVAL;
+        return PyErr_SetFromErrno(PyExc_OSError);
+    }
     ioprio = IOPRIO_PRIO_VALUE(ioclass, iodata);
     retval = ioprio_set(IOPRIO_WHO_PROCESS, pid, ioprio);
     if (retval == -1)
